@@ -89,6 +89,9 @@ func AllShapes(idx int) *schema.File {
 		schema.Field{Name: "other_c", Num: 7, Kind: "bool", Oneof: "third"},
 		schema.Field{Name: "other_d", Num: 8, Kind: "bytes", Oneof: "third"},
 		schema.Field{Name: "middle", Num: 40, Kind: "bool"},
+		// a regular field whose number lies BETWEEN two members of the oneof `choice` (24 < 27 < 30):
+		// every member must be written at its own place in the ascending order
+		schema.Field{Name: "between", Num: 27, Kind: "sint32"},
 	)
 	// Cast: picoconv in every position
 	cast := schema.Message{Name: "Cast", Fields: []schema.Field{
@@ -100,6 +103,9 @@ func AllShapes(idx int) *schema.File {
 		{Name: "dur_always", Num: 6, Kind: "message", Ref: "TS", Custom: "time.Duration", Cast: castDur, Always: true},
 		{Name: "dur_rep", Num: 7, Kind: "message", Ref: "TS", Custom: "time.Duration", Cast: castDur, Label: "repeated"},
 		{Name: "dur_rep_always", Num: 8, Kind: "message", Ref: "TS", Custom: "time.Duration", Cast: castDur, Label: "repeated", Always: true},
+		// custom-typed members of a oneof (pointers in the wrapper, like plain message members)
+		{Name: "ts_one", Num: 9, Kind: "message", Ref: "TS", Custom: "time.Time", Cast: castTS, Oneof: "when"},
+		{Name: "dur_one", Num: 10, Kind: "message", Ref: "TS", Custom: "time.Duration", Cast: castDur, Oneof: "when"},
 	}}
 	// Wide: large field numbers (1..5 tag bytes)
 	wide := schema.Message{Name: "Wide", Fields: []schema.Field{
@@ -128,6 +134,9 @@ func AllShapes(idx int) *schema.File {
 		{Name: "deep", Num: 2, Kind: "message", Ref: "Nest_Inner_Deep", Label: "repeated"},
 		{Name: "up", Num: 3, Kind: "message", Ref: "Nest"},
 		{Name: "c", Num: 4, Kind: "enum", Ref: "Nest_Color", Label: "optional", Always: true},
+		// a oneof declared in a NESTED message (its interface and wrapper types must be emitted too)
+		{Name: "alt_x", Num: 5, Kind: "uint32", Oneof: "alt"},
+		{Name: "alt_deep", Num: 6, Kind: "message", Ref: "Nest_Inner_Deep", Oneof: "alt"},
 	}}
 	nestDeep := schema.Message{Name: "Nest_Inner_Deep", Parent: "Nest_Inner", Capture: true, Fields: []schema.Field{
 		{Name: "s", Num: 1, Kind: "string"},
@@ -145,10 +154,18 @@ func AllShapes(idx int) *schema.File {
 		{Name: "side", Num: 2, Kind: "int32", Oneof: "kind"},
 		{Name: "more", Num: 3, Kind: "message", Ref: "Shape_Circle", Label: "repeated"},
 	}}
+	// an enum declared inside a LEAF message (no nested message, no map field)
+	f.Enums = append(f.Enums, schema.Enum{Parent: "Shape_Circle", Name: "Shape_Circle_Unit", Names: []string{"MM", "INCH"}, Values: []int32{0, 1}})
 	shapeCircle := schema.Message{Name: "Shape_Circle", Parent: "Shape", Fields: []schema.Field{
 		{Name: "r", Num: 1, Kind: "double"},
+		{Name: "unit", Num: 2, Kind: "enum", Ref: "Shape_Circle_Unit"},
 	}}
-	f.Messages = append(f.Messages, plain, opt, rep, one, cast, wide, nest, nestInner, nestDeep, user, shape, shapeCircle)
+	// Tree: a recursive `repeated` always_present field ([]Tree is a valid Go type)
+	tree := schema.Message{Name: "Tree", Fields: []schema.Field{
+		{Name: "kids", Num: 1, Kind: "message", Ref: "Tree", Label: "repeated", Always: true},
+		{Name: "v", Num: 2, Kind: "int32"},
+	}}
+	f.Messages = append(f.Messages, plain, opt, rep, one, cast, wide, nest, nestInner, nestDeep, user, shape, shapeCircle, tree)
 	return f
 }
 
